@@ -1,1 +1,11 @@
-#![allow(dead_code)]
+//! Kani proof harnesses over the REAL library source of OpenZeppelin/stellar-contracts
+//! (path dependencies on /repo/packages/*), executed against the host model in
+//! /verif/hostmodel (cargo [patch] of soroban-sdk). See /verif/DESIGN.md.
+#![allow(dead_code, unused_imports, clippy::all)]
+
+#[cfg(kani)]
+#[macro_use]
+pub mod util;
+
+#[cfg(kani)]
+mod fungible;
